@@ -47,6 +47,13 @@ CLAIMED.update({
    note="Trusted: lock-step synchronisation through /proc (exit 2 if unreadable), the generator's depth count as completeness judge, in-process evaluation as transcript reference. Polling uses real sleeps only to wait; no outcome depends on timing."),
 })
 
+CLAIMED.update({
+ "C07": dict(engine="damage-sim", category="fault_enumeration", ref="DESIGN.md 4.6",
+   technique="deterministic simulation with storage-fault injection: valid program and library files are damaged (truncation, bit flips, zeroed/duplicated/transposed sectors, stale tail, BOM, dropped/inserted bytes, directory/empty/dangling in place of a file) and then used on a fresh interpreter under an evaluation budget; oracle = returns, never panics, interpreter still usable",
+   text="The storage-fault slice of C07: the interpreter is a reader of files it does not control. Seeded worlds of valid sources (repository examples, bundled library texts used as user files, programs and library worlds rendered from engines A and B) receive 1-3 storage faults and are used through eval_file / import (or eval of the lossily decoded text); the call must return Ok or Err without panicking, and four sanity forms must then evaluate on the same interpreter. Budget exhaustion, stack and memory exhaustion are counted and discarded as the property says.",
+   note="Only the part of C07 that mentions files with faults is decided. The clause over all character sequences as such (exhaustive short strings, token soup) is input enumeration with nothing to schedule or inject; it is not emulated. Trusted: panic hook + catch_unwind, budget hooks, worker journal for process deaths."),
+})
+
 NOT_APPLICABLE = {
  "C01": "pure function of the program text: no schedule, interleaving, clock, stream or fault for a simulator to own (DESIGN.md 8)",
  "C02": "stack and heap use of one deterministic run as a function of (program, N): resource monitoring of a single execution, nothing scheduled, no fault whose timing matters (DESIGN.md 8)",
@@ -60,7 +67,7 @@ NOT_APPLICABLE = {
  "C16": "pure function of the value (DESIGN.md 8)",
 }
 
-PENDING = {k: "check under construction in this session (claimed by DESIGN.md; will move to checks when its engine is built)" for k in ["C07"]}
+PENDING = {}
 
 def main():
     pending = dict(PENDING)
@@ -110,5 +117,5 @@ def main():
     except ImportError:
         print("jsonschema not available; written without validation")
 
-HOOK_COMMITS = ["c4e6571", "6156fa9"]
+HOOK_COMMITS = ["c4e6571", "6156fa9", "3c9db15"]
 if __name__ == "__main__": main()
